@@ -45,14 +45,17 @@ ASSUMPTIONS = [
 ]
 EXHAUSTIVE = True
 EXHAUSTIVE_SCOPE = (
-    "108 code points x all documented item delimiter spellings x 2 observation points; 5 formats x 12 properties; "
-    "documented/foreign/neutral value lists of all 12 properties; 108 delimiters x 20 quote characters; delimiter x "
+    "111 code points x all documented item delimiter spellings x 2 observation points; 5 formats x 12 properties; "
+    "documented/foreign/neutral value lists of all 12 properties; 111 delimiters x 20 quote characters; delimiter x "
     "line delimiter; decimal x thousands separator; defaults of 5 formats"
 )
 
 # letters, a currency sign, a CJK character and three characters that are digits for str.isdigit() but not ASCII
 # digits (given literally they denote themselves; only 0-9 are read as codes)
-NON_ASCII = [0xE4, 0xDF, 0x3A9, 0x20AC, 0x4E2D, 0xB2, 0x663, 0xFF15]
+NON_ASCII = [0xE4, 0xDF, 0x3A9, 0x20AC, 0x4E2D, 0xB2, 0x663, 0xFF15,
+             # characters that Unicode normalisation or case mapping would turn into others (OHM SIGN -> OMEGA, KELVIN
+             # SIGN -> K, dotted capital I -> i + combining dot)
+             0x2126, 0x212A, 0x130]
 POOL = list(range(0x20, 0x7F)) + [9, 10, 11, 12, 13] + NON_ASCII
 SYMBOLIC = {13: "cr", 12: "ff", 10: "lf", 9: "tab", 11: "vt"}
 NAMED_ESCAPES = {9: "\\t", 10: "\\n", 13: "\\r", 12: "\\f", 11: "\\v", 92: "\\\\", 34: '\\"', 39: "\\'"}
